@@ -45,6 +45,7 @@ type Obligation struct {
 	Cover   string // sat | unsat | unknown | ""
 	Second  string
 	Watch   []watchTerm
+	KF      bool
 	SMTFile string
 }
 
@@ -696,9 +697,9 @@ func Discharge(obls []*Obligation, dir string, timeoutS int, par int, covers boo
 					}
 				}
 			}
-			if covers {
-				q := o.smt(false, true)
-				r := solve(q, dir, o.Name+"-cover", min(timeoutS, 5), false)
+			if covers && !o.KF && o.Kind != "no-abort" && o.Kind != "no-panic" && o.Kind != "vacuity" && o.Kind != "callgraph" {
+				q := o.smtMode(false, ModeNoQuant, false)
+				r := solve(q, dir, o.Name+"-cover", 3, false)
 				o.Cover = r.status
 			}
 		}()
